@@ -7,6 +7,7 @@ import (
 	"fmt"
 	"io"
 	"math/big"
+	"os"
 	"os/exec"
 	"strings"
 	"time"
@@ -63,6 +64,9 @@ func (s *solver) start() error {
 		return err
 	}
 	cmd.Stderr = nil
+	// glibc malloc tuning: without it z3 returns memory to the OS after every
+	// check and spends most of its time in page faults (measured 7.6x slower).
+	cmd.Env = append(os.Environ(), "MALLOC_TRIM_THRESHOLD_=4000000000", "MALLOC_TOP_PAD_=268435456", "MALLOC_MMAP_THRESHOLD_=4000000000")
 	if err := cmd.Start(); err != nil {
 		return err
 	}
